@@ -202,8 +202,21 @@ theorem rewrites_preserve_parse {g' : Grammar} (hG : GrammarRel (Rewrite inp) g 
     (ht : TriviaTotal g inp) (ht' : TriviaTotal g' inp) (start : String) (k : Nat) (r : R0) :
     ParseC g inp start k r ↔ ParseC g' inp start k r := L0.rewrites_preserve_parse hG ht ht' start k r
 
-/-- (7, grammar level, general) replacing rule bodies by bodies that are equivalent in both
-    grammars -/
+/-- … and when only the original grammar is known to have total trivia: the rewritten grammar
+    may fail to answer, but it cannot answer differently -/
+theorem rewrites_preserve_parse_partial {g' : Grammar} (hG : GrammarRel (Rewrite inp) g g')
+    (ht : TriviaTotal g inp) {start : String} {k : Nat} {r : R0} (h : ParseC g' inp start k r) :
+    ParseC g inp start k r := L0.rewrites_preserve_parse_partial hG ht h
+
+/-- (7, grammar level, general) replacing rule bodies by bodies that are equivalent in the
+    *original* grammar can lose termination but cannot change an answer … -/
+theorem equiv_bodies_partial {g' : Grammar} {B : Expr → Expr → Prop} (hG : GrammarRel B g g')
+    (hB : ∀ x x', B x x' → EquivAt g inp x x') {start : String} {k : Nat} {r : R0}
+    (h : ParseC g' inp start k r) : ParseC g inp start k r := by
+  rw [L0.parseC_iff none] at h ⊢
+  exact L0.cong_grammar_bwd hG (fun a b hb s r => (hB a b hb s r).2) (.refl _) h
+
+/-- … and by bodies that are equivalent in both grammars changes nothing -/
 theorem equiv_bodies_preserve_parse {g' : Grammar} {B : Expr → Expr → Prop} (hG : GrammarRel B g g')
     (hB : ∀ x x', B x x' → EquivAt g inp x x') (hB' : ∀ x x', B x x' → EquivAt g' inp x x') :
     GEquiv g g' inp := L0.cong_grammar_parse hG hB hB'
@@ -479,6 +492,26 @@ example : isOk (L0.run badG #[97] 10 (.str [97]) ⟨0, [], false⟩) = true := b
 example : isStuck (L0.run badG #[97] 10
     (.group (.choice [.group (.seq [.str [97], .str never]) none, .str [97]]) none) ⟨0, [], false⟩) = true := by
   decide +kernel
+
+/-- `a = _{ "x" }`: in this grammar the body `"x"` is equivalent to `a` itself … -/
+def foldG : Grammar := { rules := [⟨"a", SILENT, .str [120], .grammar⟩] }
+/-- … but replacing the body by this equivalent expression gives `a = _{ a }` -/
+def foldG' : Grammar := { rules := [⟨"a", SILENT, .ident "a" none, .grammar⟩] }
+
+example (inp : Input) : EquivAt foldG inp (.str [120]) (.ident "a" none) :=
+  (L0.silent_rule_inline (g := foldG) (nm := "a") (rl := ⟨"a", SILENT, .str [120], .grammar⟩) rfl
+    (by decide) (by decide) (by decide) (by decide) (by decide) none).symm
+
+-- which loops: the equivalence must hold in the rewritten grammar too (`equiv_bodies_preserve_parse`)
+theorem foldG'_diverges (inp : Input) : ∀ (n : Nat) (s : S0), L0.run foldG' inp n (.ident "a" none) s = .oof := by
+  intro n
+  induction n with
+  | zero => intro s; rfl
+  | succ n ih =>
+    intro s
+    show L0.callRule foldG' (L0.run foldG' inp n) "a" s = .oof
+    have hl : foldG'.lookup "a" = some ⟨"a", SILENT, .ident "a" none, .grammar⟩ := rfl
+    simp only [L0.callRule, hl, L0.ruleApply, ih]
 
 /-- a fused SKIP rule that is not a loop: one optional space -/
 def onceG : Grammar := { rules := [⟨"SKIP", SILENT + ATOMIC, .opt (.str [32]), .grammar⟩] }
